@@ -89,7 +89,7 @@ def t_mem(m):
 
 def t_choice(c):
     accs = tl(c["accs"], lambda a: f"{t_pinfo(a['old'])} {a['cid']} {tl(a['files'], lambda nc: f'{nc[0]} {nc[1]}')}")
-    return f"{accs} {tl(c['newLive'], t_pinfo)} {tl(c['locked'], t_job)} {1 if c['inc'] else 0} {c['halfRows']}"
+    return f"{accs} {tl(c['newLive'], t_pinfo)} {tl(c['locked'], t_job)} {1 if c['inc'] else 0} {c['halfRows']} {1 if c['halfTorn'] else 0}"
 
 
 def t_manifest(m):
@@ -387,14 +387,17 @@ class Segment:
             data_ev = [e for e in evs if e["op"] == "open-a" and "write_to_pathens" in e["tags"]]
             rows = []
             half_rows = 0
+            half_torn = False
             if data_ev:
                 txt = data_ev[0].get("text", "")
                 rows = [int(l.split()[0]) for l in txt.split("\n") if l.strip()]
-                half_rows = txt.encode()[: len(txt.encode()) // 2].count(b"\n")
+                hb = txt.encode()[: len(txt.encode()) // 2]
+                half_rows = hb.count(b"\n")
+                half_torn = bool(hb) and not hb.endswith(b"\n")
             r_ev = [e for e in evs if "write_toml" in e["tags"] and e["op"] == "open-w"]
             rec = parse_current(r_ev[0].get("text", "")) if r_ev else None
             dels = [e for e in evs if e["op"] in ("remove", "rmdir") and "_move_path" not in e["tags"]]
-            st.update(blocks=blocks, rows=rows, half_rows=half_rows, rec=rec, has_del=bool(dels),
+            st.update(blocks=blocks, rows=rows, half_rows=half_rows, half_torn=half_torn, rec=rec, has_del=bool(dels),
                       inc=st["key"][0] == "step")
             if st["key"][0] == "final":
                 st["kind"] = "final-write"
@@ -457,8 +460,9 @@ class Segment:
                 self.model_ok = False
                 return
             choice = {"accs": accs, "newLive": new_live, "locked": st["rec"]["locked"], "inc": st["inc"],
-                      "halfRows": st["half_rows"]}
+                      "halfRows": st["half_rows"], "halfTorn": st["half_torn"]}
             pre_disk = dict(disk, files=files)
+            mem = self.reorder_olds(mem, [self.events[i] for i in st["ev"]])
             st["pre"] = {"mem": mem, "disk": pre_disk}
             st["choice"] = choice
             st["manifest"] = dict(manifest)
@@ -484,6 +488,25 @@ class Segment:
                 ctx.disagree({"segment": self.label, "step": si, "what": "restart record"}, code_rec, mrec)
         self.final_pinfo = pinfo
         self.final_manifest = manifest
+
+    def reorder_olds(self, mem, evs):
+        """`adress` is a Python set: the order in which the trajectory files of a queued path are removed is
+        whatever the set iterates in (it depends on the absolute path of the run directory).  The model
+        takes the order as an input: use the one this very run shows."""
+        obs = {}
+        for e in evs:
+            m = re.fullmatch(r"load/(\d+)/accepted/(.+)", e.get("path") or "")
+            if e["op"] == "remove" and m and "_move_path" not in e["tags"]:
+                obs.setdefault(int(m.group(1)), []).append(self.reg.name(m.group(2)))
+        if not obs:
+            return mem
+        olds = []
+        for pn, names in mem["olds"]:
+            o = obs.get(pn)
+            if o and set(o) <= set(names):
+                names = o + [x for x in names if x not in o]
+            olds.append((pn, names))
+        return dict(mem, olds=olds)
 
     def expected_events(self, st):
         """the audit events the model's effect list stands for: [(model index, (op, path, dest))]"""
@@ -705,7 +728,8 @@ def enumerate_segment(ctx, seg, work, tag, depth_cb=None, limit_events=None, mod
              "step": e["step"], "tree_restart": read_restart(root), "model_line": None}
         if not c["crashed"]:
             ctx.disagree({"segment": seg.label, "k": k, "mode": mode}, f"crash child rc={rc} {str(res)[:300]}", "rc=77")
-        elif res["events"][-1]["op"] != e["op"] or res["events"][-1]["path"] != e["path"]:
+        elif res["events"][-1]["op"] != e["op"] or (res["events"][-1]["path"] != e["path"] and not (
+                e["op"] == "remove" and os.path.dirname(res["events"][-1]["path"]) == os.path.dirname(e["path"]))):
             ctx.disagree({"segment": seg.label, "k": k, "mode": mode, "what": "history not reproducible"},
                          [res["events"][-1]["op"], res["events"][-1]["path"]], [e["op"], e["path"]])
             c["crashed"] = False
@@ -724,7 +748,14 @@ def enumerate_segment(ctx, seg, work, tag, depth_cb=None, limit_events=None, mod
             if "mpoint" in c:
                 si, j, half = c["mpoint"]
                 st = seg.steps[si]
-                c["model_line"] = (f"crash {seg.cfg} {t_mem(st['pre']['mem'])} {disk_tokens(st['pre']['disk'])} "
+                pre_mem = st["pre"]["mem"]
+                pre_disk = st["pre"]["disk"]
+                if e["step"] is None:
+                    # between two steps: the worker has not produced this step's trajectory files yet
+                    pre_disk = dict(pre_disk, files={k_: v for k_, v in pre_disk["files"].items() if k_[0] != 6})
+                elif st["has_del"]:
+                    pre_mem = seg.reorder_olds(pre_mem, [x for x in res["events"] if x["k"] in st["ev"]])
+                c["model_line"] = (f"crash {seg.cfg} {t_mem(pre_mem)} {disk_tokens(pre_disk)} "
                                    f"{t_choice(st['choice'])} {t_manifest(st['manifest'])} {j} {1 if half else 0}")
                 lines.append(c["model_line"])
     answers = ctx.driver(lines) if lines else []
